@@ -58,7 +58,7 @@ class World:
                         out.append((s, rid))
         return out
 
-    def report(self, a, stale_bias=0.35, stray=False):
+    def report(self, a, stale_bias=0.35, stray=False, stray_consistent=False):
         rng = self.rng
         infos, ids, plog = [], [], []
         reps = self.replicas_on(a)
@@ -80,7 +80,18 @@ class World:
             ids.append(s)
             if rng.random() < 0.8:
                 plog.append((s, rid))
-        if stray and self.hist:
+        if stray and self.hist and stray_consistent:
+            # C04: a zombie that is consistent with the history - a replica id that is no member, reporting (when its entry is
+            # complete) the membership of a history entry at that entry's version; partial entries carry any version
+            s = rng.choice(sorted(self.hist))
+            v, m = rng.choice(self.hist[s])
+            pending = rng.random() < 0.3
+            incomplete = (not pending) and rng.random() < 0.5
+            full = not pending and not incomplete
+            infos.append(dict(shard=s, replica=rng.randint(900, 905), leader=rng.random() < 0.3,
+                              cci=v if full else rng.choice([0, 1, v, self.hist[s][-1][0]]), incomplete=incomplete, pending=pending,
+                              members=sorted(m.items()) if full else []))
+        elif stray and self.hist:
             s = rng.choice(sorted(self.hist))
             infos.append(dict(shard=s, replica=rng.randint(900, 905), leader=False, cci=rng.choice([0, 1, self.hist[s][-1][0]]),
                               incomplete=rng.random() < 0.5, pending=rng.random() < 0.3, members=[]))
@@ -124,8 +135,10 @@ def ticks(n):
     return [("T",)] * n
 
 
-def gen_view_trace(rng, length=40, queries="dense", strays=True):
-    """C04 / C05 / C11: reports consistent with a linear history, ticks with gaps around TTL"""
+def gen_view_trace(rng, length=40, queries="dense", strays=True, stray_consistent=False):
+    """C04 / C05 / C11: reports consistent with a linear history, ticks with gaps around TTL.
+    stray_consistent=False (default, unchanged behaviour): a stray entry may be complete with an empty member list, which is
+    NOT consistent with the history and can trip the consistency panics; True: strays respect the history (C04)."""
     w = World(rng)
     ops = w.shard_ops()
     ops += ticks(rng.choice([0, 1, 1, 2]))      # reports at time 0 are a boundary (C05)
@@ -139,7 +152,7 @@ def gen_view_trace(rng, length=40, queries="dense", strays=True):
             continue
         else:
             a = rng.choice(w.hosts)
-            ops.append(("R", w.report(a, stray=strays and rng.random() < 0.12)))
+            ops.append(("R", w.report(a, stray=strays and rng.random() < 0.12, stray_consistent=stray_consistent)))
         if queries == "dense" or rng.random() < 0.3:
             ops.append(("LC",))
             ops.append(("LT", sorted(w.hist)))
@@ -260,8 +273,15 @@ def gen_launch_trace(rng):
             # reports need a positive report time: t==0 only if ticks happened before
             hs = hosts if mode != "partial" else hosts[:-1]
             # first reports create the view (tick stamped by updateNodeTick in the same report)
+            # C09 (old count-based defect): one DEFINED shard stays silent while an undefined one reports
+            skip = max(w.hist) if (mode == "undefined-shard" and len(w.hist) >= 2 and rng.random() < 0.5) else None
             for a in hs:
-                ops.append(("R", full_report(w, a)))
+                fr = full_report(w, a)
+                if skip is not None:
+                    fr["infos"] = [ci for ci in fr["infos"] if ci["shard"] != skip]
+                    fr["shard_ids"] = [x for x in fr["shard_ids"] if x != skip]
+                ops.append(("R", fr))
+                ops.append(("LC",))                        # one context lookup per report: the C09 monitor sees every intermediate view
             if mode == "undefined-shard":
                 # a report about a shard that was never defined
                 ops.append(("R", dict(addr=hosts[0], rpc=0, region=1, plog_incl=False, plog=[], shard_ids=[99],
